@@ -1,0 +1,77 @@
+//go:build verif
+
+// Contracts for the verification machinery in /verif (comment-only; no code).
+
+package fragswarm
+
+// ---- wire format: three uvarints (id, part, total) followed by the fragment body ----------------
+
+//@ spec func n1(x seq) int = uvarint_n(x)
+//@ spec func n2(x seq) int = uvarint_n(x[n1(x):])
+//@ spec func n3(x seq) int = uvarint_n(x[n1(x)+n2(x):])
+//@ spec func v1(x seq) int = uvarint_val(x)
+//@ spec func v2(x seq) int = uvarint_val(x[n1(x):])
+//@ spec func v3(x seq) int = uvarint_val(x[n1(x)+n2(x):])
+//@ spec func wellformed(x seq) bool = n1(x) >= 1 && n2(x) >= 1 && n3(x) >= 1
+
+//@ func appendUvarint
+//@   ensures len(ret) == len(b) + 1
+//@   ensures forall j :: 0 <= j && j < len(b) ==> ret[j] == old(b[j])
+//@   ensures len(ret[len(b)]) == uvarint_len(x) && fresh(ret[len(b)])
+//@   ensures forall j :: 0 <= j && j < uvarint_len(x) ==> ret[len(b)][j] == uvarint_byte(x, j)
+//@   ensures arr(ret) == arr(b) || fresh(ret)
+//@   modifies all(b)
+//@
+//@ func newMessage
+//@   ensures len(ret) == 4 && fresh(ret)
+//@   ensures len(ret[0]) == uvarint_len(id) && (forall j :: 0 <= j && j < uvarint_len(id) ==> ret[0][j] == uvarint_byte(id, j))
+//@   ensures len(ret[1]) == uvarint_len(part) && (forall j :: 0 <= j && j < uvarint_len(part) ==> ret[1][j] == uvarint_byte(part, j))
+//@   ensures len(ret[2]) == uvarint_len(total) && (forall j :: 0 <= j && j < uvarint_len(total) ==> ret[2][j] == uvarint_byte(total, j))
+//@   ensures ret[3] == data
+//@
+//@ func parseMessage
+//@   ensures !wellformed(x) ==> err != nil
+//@   ensures wellformed(x) && uint8(v2(x)) < uint8(v3(x)) ==> err == nil
+//@   ensures wellformed(x) && uint8(v2(x)) >= uint8(v3(x)) ==> err != nil
+//@   ensures err == nil ==> id == uint32(v1(x)) && part == uint8(v2(x)) && total == uint8(v3(x)) && part < total
+//@   ensures err == nil ==> data == x[n1(x)+n2(x)+n3(x):]
+//@   ensures err != nil ==> len(data) == 0
+//@
+//@ func parseMessage$1
+//@   inline
+//@   loop 0:
+//@     invariant 0 <= i && i <= 3
+//@     invariant 0 <= n && n <= len(x)
+//@     invariant i == 0 ==> n == 0
+//@     invariant i >= 1 ==> n1(x) >= 1 && fields[0] == v1(x) && (i == 1 ==> n == n1(x))
+//@     invariant i >= 2 ==> n2(x) >= 1 && fields[1] == v2(x) && (i == 2 ==> n == n1(x) + n2(x))
+//@     invariant i >= 3 ==> n3(x) >= 1 && fields[2] == v3(x) && n == n1(x) + n2(x) + n3(x)
+
+// ---- reassembly -----------------------------------------------------------------------------
+
+//@ func (*aggregator).addPart
+//@   requires part < total
+//@   modifies a.parts, all(a.parts)
+//@   ensures old(a.parts) != nil ==> a.parts == old(a.parts)
+//@   ensures old(a.parts) == nil ==> len(a.parts) == total && fresh(a.parts)
+//@   ensures ret ==> part < len(a.parts)
+//@   ensures ret ==> forall i :: 0 <= i && i < len(a.parts) ==> a.parts[i] != nil
+//@   ensures !ret && part < len(a.parts) ==> exists i :: 0 <= i && i < len(a.parts) && a.parts[i] == nil
+//@   ensures part < len(a.parts) ==> fresh(a.parts[part]) && seq(a.parts[part]) == seq(data)
+//@   ensures old(a.parts) != nil ==> forall i :: 0 <= i && i < len(a.parts) && i != part ==> a.parts[i] == old(a.parts[i])
+//@   ensures old(a.parts) == nil ==> forall i :: 0 <= i && i < len(a.parts) && i != part ==> a.parts[i] == nil
+//@   loop 0:
+//@     invariant 0 <= i && i <= len(a.parts)
+//@     invariant forall k :: 0 <= k && k < i ==> a.parts[k] != nil
+//@
+//@ func (*aggregator).assemble
+//@   ensures a.parts == nil ==> ret == nil
+//@   ensures len(ret) == sumlen(lens(a.parts), len(a.parts))
+//@   ensures forall p, j :: 0 <= p && p < len(a.parts) && 0 <= j && j < len(a.parts[p]) ==> ret[sumlen(lens(a.parts), p) + j] == a.parts[p][j]
+//@   ensures a.parts != nil && len(ret) > 0 ==> fresh(ret)
+//@   loop 0:
+//@     invariant 0 <= _i && _i <= len(a.parts)
+//@     invariant len(buf) == sumlen(lens(a.parts), _i) && len(buf) >= 0
+//@     invariant forall p, j :: 0 <= p && p < _i && 0 <= j && j < len(a.parts[p]) ==> buf[sumlen(lens(a.parts), p) + j] == a.parts[p][j]
+//@     invariant buf == nil || fresh(buf)
+//@     invariant forall p :: 0 <= p && p <= _i ==> 0 <= sumlen(lens(a.parts), p) && sumlen(lens(a.parts), p) <= len(buf)
